@@ -45,6 +45,8 @@ unsigned gh_ep_addref, gh_ep_release;   /* reference traffic on exception object
 void _ZNSt15__exception_ptr13exception_ptr9_M_addrefEv(struct cv_exception_ptr *ep) { gh_ep_addref++; }
 void _ZNSt15__exception_ptr13exception_ptr10_M_releaseEv(struct cv_exception_ptr *ep) { gh_ep_release++; }
 
+/* std::exception base-class destructor (libstdc++, external): nothing to do for opaque exception objects */
+void _ZNSt9exceptionD2Ev(void *e) {}
 void cv_llvm_memset_p0i8_i64(cv_i8 *d, cv_i8 v, cv_i64 n, cv_i1 vol) { memset(d, v, n); }
 void cv_llvm_memcpy_p0i8_p0i8_i64(cv_i8 *d, cv_i8 *s, cv_i64 n, cv_i1 vol) { memcpy(d, s, n); }
 void cv_llvm_memmove_p0i8_p0i8_i64(cv_i8 *d, cv_i8 *s, cv_i64 n, cv_i1 vol) { memmove(d, s, n); }
